@@ -348,8 +348,25 @@ func needsQuote(name string) bool {
 	return false
 }
 
+// NumericNames are field names that look like indexes: a field segment stays a field segment whatever its
+// name looks like (it fails on a list), an index segment stays an index (it fails on a map that happens to
+// have such a key).
+var NumericNames = []string{"0", "1", "2", "-1", "+1", "00", "002", "1e0", " 1", "0x1", "9999999999"}
+
 func guided(t *rapid.T, cur val.V, cfg GenCfg) Seg {
 	opt := !cfg.NoOpt && rapid.IntRange(0, 4).Draw(t, "opt") == 0
+	if !cfg.OnlyFields && rapid.IntRange(0, 7).Draw(t, "crosskind") == 0 {
+		// a segment of the kind that does NOT apply to the current value
+		switch cur.Kind() {
+		case "map":
+			if rapid.Bool().Draw(t, "xk_slice") {
+				return Seg{Kind: "slice", From: ip(0), Opt: opt}
+			}
+			return Seg{Kind: "index", Idx: int64(rapid.IntRange(-2, 2).Draw(t, "xk_idx")), Opt: opt}
+		default:
+			return Seg{Kind: "qfield", Name: rapid.SampledFrom(NumericNames).Draw(t, "xk_name"), Opt: opt}
+		}
+	}
 	switch cur.Kind() {
 	case "map":
 		if len(cur.M) > 0 && rapid.IntRange(0, 5).Draw(t, "mapmode") > 0 {
